@@ -1,5 +1,6 @@
 /- C10: decoding allocates in proportion to the input, never to a claimed length: theorems about the cost-instrumented
    decoder (which projects onto the plain decoder) at Gen.env, for every struct-size function, fuel, type and byte string. -/
+import FinProto.Obl.SPrims
 import FinProto.Obl.SElems
 import FinProto.Obl.SWidths
 import FinProto.Props.CostProofs
@@ -17,5 +18,8 @@ theorem C10_request_local (objSize : Nat → Nat) (f ty : Nat) (b : Bytes) :
 theorem C10_total_linear (objSize : Nat → Nat) (f ty : Nat) (b : Bytes) :
     (decTyC Gen.env objSize f ty b).2.alloc ≤ allocConst Gen.env objSize f ty * (b.length + 1) :=
   decTyC_alloc_linear objSize gen_elemsOK f ty b
+
+/-- the primitives, template-translated from the current source, are the pinned ones (or unrecognised) -/
+theorem C10_prims : primsAgree Gen.prims pinnedPrims = true := gen_prims_agree
 
 end FinProto.Obl
